@@ -425,10 +425,15 @@ class MsgpackSerializer(SerializerBase):
         return msgpack.packb(data, use_bin_type=True, default=self.default)
 
     def loadsCall(self, data):
-        return msgpack.unpackb(self._convertToBytes(data), raw=False, object_hook=self.object_hook, ext_hook=self.ext_hook)
+        # class dicts are recreated top-down afterwards (like the other serializers do), not by an object_hook:
+        # that works bottom-up and would hand live objects (such as proxies) to the code that rebuilds the enclosing class
+        obj, method, vargs, kwargs = msgpack.unpackb(self._convertToBytes(data), raw=False, ext_hook=self.ext_hook)
+        vargs = self.recreate_classes(vargs)
+        kwargs = self.recreate_classes(kwargs)
+        return obj, method, vargs, kwargs
 
     def loads(self, data):
-        return msgpack.unpackb(self._convertToBytes(data), raw=False, object_hook=self.object_hook, ext_hook=self.ext_hook)
+        return self.recreate_classes(msgpack.unpackb(self._convertToBytes(data), raw=False, ext_hook=self.ext_hook))
 
     def default(self, obj):
         replacer = self.__type_replacements.get(type(obj), None)
